@@ -222,6 +222,7 @@ class NodeData:
     is_compiled = False
     start_label: str = None
     end_label: str = None
+    saves_ra: bool = False
     function_data: FunctionData = None
 
     code: dict[CodeType, list[IC10Instruction]] = None
